@@ -314,7 +314,9 @@ class GenericCheck(Check):
         key, path_segments = path_segments[0], path_segments[1:]
         try:
             test_value = test_value[key]
-        except KeyError:
+        except (KeyError, TypeError):
+            # The attribute is missing, or the path runs into a value that
+            # is not a mapping (a string, a number, None, a list); fail closed
             return False
         if isinstance(test_value, list):
             for val in test_value:
@@ -337,7 +339,9 @@ class GenericCheck(Check):
             test_value = ast.literal_eval(self.kind)
             return match == str(test_value)
 
-        except ValueError:
+        except (ValueError, SyntaxError, TypeError):
+            # Not a literal (literal_eval raises SyntaxError for text that is
+            # not a Python expression at all, e.g. 'class' or 'a.0')
             pass
 
         path_segments = self.kind.split('.')
